@@ -68,8 +68,17 @@ func run(t *rapid.T) {
 	}
 	w := fam.NewWorld(t, b)
 	tr := &trace{}
+	// cold runs: the harness does not observe the values the build phase
+	// derives before the goroutines start, so that it is not the first to
+	// touch whatever a value initialises lazily (an error text, a cache)
+	cold := rapid.IntRange(0, 2).Draw(t, "cold") == 0
+	if cold {
+		core.Probe("cold-runs")
+	}
 	core.Eval()
 	nbuild := rapid.IntRange(0, maxBuild).Draw(t, "nbuild")
+	fam.SkipObservation = cold
+	defer func() { fam.SkipObservation = false }()
 	var prev *fam.OpDesc
 	for i := 0; i < nbuild; i++ {
 		d := fam.DrawSibling(t, prev)
@@ -82,10 +91,15 @@ func run(t *rapid.T) {
 		}
 		for _, m := range out.New {
 			if len(w.Members) < b.MaxMembers {
-				w.Add(m)
+				if cold {
+					w.AddLight(m)
+				} else {
+					w.Add(m)
+				}
 			}
 		}
 	}
+	fam.SkipObservation = false
 	nclients := rapid.IntRange(2, maxClients).Draw(t, "nclients")
 	stormOdds := 5
 	if w.Huge {
@@ -116,7 +130,7 @@ func run(t *rapid.T) {
 	var wg sync.WaitGroup
 	for c := 0; c < nclients; c++ {
 		c := c
-		local := &fam.World{Specs: w.Specs, Members: append([]*fam.Member{}, w.Members...)}
+		local := w.Fork()
 		wg.Add(1)
 		go func() {
 			defer wg.Done()
@@ -151,6 +165,14 @@ func run(t *rapid.T) {
 			ds = append(ds, fmt.Sprintf("goroutine %d: %s", r.Client, r.Desc))
 		}
 		core.Sample(map[string]interface{}{"build": tr.Build, "goroutines": nclients, "executed": ds})
+	}
+	for _, rs := range results {
+		for _, r := range rs {
+			if r.conc.ArgChanged != "" {
+				core.Violation(t, "C01:I1:argument-changed", "an operation changed a value passed to it: "+r.Desc+": "+r.conc.ArgChanged, tr)
+				return
+			}
+		}
 	}
 	if m, d := w.CheckAll(); m != nil {
 		tr.Detail = d
@@ -193,7 +215,11 @@ func run(t *rapid.T) {
 				continue
 			}
 			core.Probe("fresh-copy-comparisons")
-			ref := safeRun(fam.ResolveWith(w, r.ex.D, r.Client, recv, other))
+			rex := fam.ResolveWith(w, r.ex.D, r.Client, recv, other)
+			ref := safeRun(rex)
+			if ref.Canon != r.conc.Canon && os.Getenv("VERIF_DEBUG") != "" {
+				fmt.Printf("DEBUG conc clause %s\nDEBUG ref clause %s\nDEBUG recv %+v\nDEBUG copy %+v\n", r.ex.Debug, rex.Debug, r.ex.Recv.Observe(), recv.Observe())
+			}
 			if ref.Canon != r.conc.Canon {
 				tr.Conc, tr.Alone = clip(r.conc.Canon), clip(ref.Canon)
 				core.Violation(t, "C11:I2:differs-from-fresh-copy", fmt.Sprintf("%s (goroutine %d) returned a different result than the same operation on a fresh copy of its operands", r.Desc, r.Client), tr)
